@@ -84,3 +84,20 @@ Theorem C13_legacy_refuted :
     {| pr_key := Some "1"; pr_offset := 0; pr_limit := 1; pr_count_total := false; pr_reverse := true |}
   = Ok {| pg_items := ["1"]; pg_next := None; pg_total := 0 |}.
 Proof. vm_compute. split; reflexivity. Qed.
+
+(* finding 16 (C14): a Hyperlane forwarding whose max fee is a non-zero coin the SDK refuses to build (an
+   invalid denomination, a negative amount).  The attributes did not validate it and the Warp module's
+   sdk.NewCoins panicked inside the receive path; the repaired HypAttributes.Validate refuses it. *)
+From Orbiter Require Import Model.Payload Model.Pipeline Props.Examples.
+Definition hyp_bad_fee (denom : string) (amt : Z) : forwarding :=
+  {| f_pid := protocol_hyperlane;
+     f_attrs := Some (AHyp "tokentokentokentokentokentokento" 1 "recipientrecipientrecipientrecip" "" "" 0 denom amt); f_pass := "" |}.
+Theorem C14_legacy_max_fee_refuted :
+  rr_out (recv_pinned ex_cfg ex_env ex_world (ex_packet (hyp_bad_fee "1bad" 1)) []) = OPanic "warp: sdk.NewCoins on an invalid max fee" /\
+  rr_out (recv_pinned ex_cfg ex_env ex_world (ex_packet (hyp_bad_fee "uusdc" (-1))) []) = OPanic "warp: sdk.NewCoins on an invalid max fee" /\
+  rr_out (recv ex_cfg ex_env ex_world (ex_packet (hyp_bad_fee "1bad" 1)) []) = OAckErr "hyperlane: invalid max fee" /\
+  rr_out (recv ex_cfg ex_env ex_world (ex_packet (hyp_bad_fee "uusdc" (-1))) []) = OAckErr "hyperlane: invalid max fee" /\
+  (* a zero max fee, whatever its denomination, and a valid one are forwarded *)
+  rr_out (recv ex_cfg ex_env ex_world (ex_packet (hyp_bad_fee "x" 0)) []) = OAckOk /\
+  rr_out (recv ex_cfg ex_env ex_world (ex_packet (hyp_bad_fee "uusdc" 5)) []) = OAckOk.
+Proof. vm_compute. repeat split; reflexivity. Qed.
